@@ -300,10 +300,13 @@ fn gen_fmt_case(d: &mut Dice) -> Case {
     let gens = ["A", "B", "C", "D"];
     let ng = d.range(2, 4);
     let wrap = |d: &mut Dice, g: &str| -> String {
-        match d.pick(5) {
+        match d.pick(7) {
             0 => format!("Vec<{g}>"),
             1 => format!("&'static {g}"),
             2 => format!("Option<{g}>"),
+            // projections: the bound search has an early exit of its own for `<T as Trait>::Assoc`
+            5 => format!("<{g} as Tr>::Out"),
+            6 => format!("{g}::Out"),
             _ => g.to_string(),
         }
     };
